@@ -128,6 +128,10 @@ class VerifyEnv:
         raise Unsupported("del item of %r" % (cont,))
 
     def global_hook(self, ex, st, module, name):
+        """contracts may bind module-level names of modules that cannot be imported here (optional third-party dependency)"""
+        ov = getattr(self, "global_overrides", None)
+        if ov:
+            return ov.get((module, name))
         return None
 
     def mod_attr_hook(self, ex, st, full):
